@@ -98,7 +98,7 @@ def write (c : Codec) (bs : Nat) (s : WState) (d : List Nat) : WState :=
   if d = [] then s                                    -- `if (length == 0) return (ret);`
   else if s.hold ≠ [] then
     -- `while (state->hold_len < LBYTES && length > 0) state->hold[state->hold_len++] = *p++;`
-    let k := Nat.min (c.lbytes - s.hold.length) d.length
+    let k := min (c.lbytes - s.hold.length) d.length
     let hold' := s.hold ++ d.take k
     if hold'.length < c.lbytes then { s with hold := hold' }      -- `return (ret);`
     else encodeRest c bs { s.append (c.encLine hold') with hold := [] } (d.drop k)
